@@ -5,7 +5,8 @@ ID=$1; shift
 HERE="$(cd "$(dirname "${BASH_SOURCE[0]}")/.." && pwd)"
 WT=$(mktemp -d /tmp/sil1-XXXXXX)
 git -C /repo worktree add --detach "$WT" HEAD >/dev/null 2>&1
-( cd "$WT" && git apply "$HERE/silent/$ID/patch.diff" ) || { echo "apply failed"; }
+P="$HERE/silent/$ID/patch.diff"; [ -f "$HERE/silent/$ID/patch.head.diff" ] && P="$HERE/silent/$ID/patch.head.diff"
+( cd "$WT" && git apply "$P" ) || { echo "apply failed"; }
 for p in "$@"; do
   VERIF_REPO="$WT" "$HERE/run.sh" $p quick -no-evidence 2>&1 | grep -E "^NOTE|violated:|undecided:|^     |^OK" | cut -c1-${W:-420}
 done
